@@ -1628,16 +1628,22 @@ def check_C06(ctx):
         ctx.rep.notes.append('cbmc 6.11 bounded runs: ' + '; '.join('%s N=%d %s %.0fs' % (c[1], c[2], st, sec) for c, st, d, sec, cmd in res))
     # (d) linear work: instruction counts (callgrind) on adversarial shapes at n, 2n, 4n
     import subprocess
-    shapes = {'all-dots': lambda n: b'.' * n, 'all-at': lambda n: b'@' * n, 'long-local': lambda n: b'a' * n + b'@b.com', 'many-labels': lambda n: b'a@' + b'b.' * (n // 2) + b'c',
-              'one-label': lambda n: b'a@' + b'b' * n, 'colons': lambda n: b'a@[' + b':' * n + b']', 'quoted-pairs': lambda n: b'"' + b'\\"' * (n // 2) + b'"@x.y', 'utf8': lambda n: ('я' * (n // 2)).encode() + b'@b.com'}
+    E1 = lambda a: gens.e_lines([a], {}) * 3
+    shapes = {'all-dots': lambda n: E1(b'.' * n), 'all-at': lambda n: E1(b'@' * n), 'long-local': lambda n: E1(b'a' * n + b'@b.com'), 'many-labels': lambda n: E1(b'a@' + b'b.' * (n // 2) + b'c'),
+              'one-label': lambda n: E1(b'a@' + b'b' * n), 'colons': lambda n: E1(b'a@[' + b':' * n + b']'), 'quoted-pairs': lambda n: E1(b'"' + b'\\"' * (n // 2) + b'"@x.y'), 'utf8': lambda n: E1(('\u044f' * (n // 2)).encode() + b'@b.com'),
+              # the public per-part validators on long inputs (through the e-mail functions the scanners never see more than 64 / 254 bytes)
+              'L-atoms': lambda n: ['L %s -' % hx(b'ab.' * (n // 3) + b'c')] * 3, 'L-quoted': lambda n: ['L %s -' % hx(b'"' + b'\\" ' * (n // 3) + b'"')] * 3,
+              'L-utf8': lambda n: ['L %s -' % hx(('\u20ac' * (n // 3)).encode())] * 3, 'L-folds': lambda n: ['L %s -' % hx(b'"' + b'a\r\n ' * (n // 4) + b'"')] * 3,
+              'S-labels': lambda n: ['S %s' % hx(b'ab.' * (n // 3) + b'example.com')] * 3, 'S-one-label': lambda n: ['S %s' % hx(b'a.' + b'b' * n)] * 3,
+              '6-groups': lambda n: ['6 %s -' % hx(b'1:' * (n // 2))] * 3, '4-digits': lambda n: ['4 %s -' % hx(b'0.' * (n // 2))] * 3, 'P-dots': lambda n: ['P %s -' % hx(b'0.0.' * (n // 4) + b':')] * 3}
     if not ctx.thorough():
-        shapes = {k: shapes[k] for k in ('all-dots', 'many-labels', 'quoted-pairs', 'utf8')}
+        shapes = {k: shapes[k] for k in ('all-dots', 'many-labels', 'quoted-pairs', 'utf8', 'L-atoms', 'L-quoted', 'L-utf8', 'S-labels', '4-digits')}
     base_n = 4000
     lin = {}
     for name, f in shapes.items():
         irs = []
         for n in (base_n, 2 * base_n, 4 * base_n):
-            lines = gens.e_lines([f(n)], {}) * 3
+            lines = f(n)
             p = subprocess.run(['valgrind', '--tool=callgrind', '--callgrind-out-file=/dev/null', ld.drv()], input=('\n'.join(lines) + '\n').encode(), stdout=subprocess.PIPE, stderr=subprocess.PIPE)
             m = re.search(r'Collected : (\d+)', p.stderr.decode())
             irs.append(int(m.group(1)) if m else -1)
